@@ -5,6 +5,12 @@ func init() {
 		"Structural necessary conditions of 'failures are returned, classifiable errors - never panics or partial state': (R15.1) the call into the user's constructor runs under a deferred recover that yields PanicError{Panic: r}, mapped to ConstructorPanicError with that value, other invocation errors kept as Cause; (R15.2) every error struct with an error-typed field unwraps to it; (R15.3) every fmt.Errorf formats error arguments with %w; (R15.4) sentinels are used as values, never rendered into text; (R15.4c) every typed error built while handling an error keeps that error as Cause; (R15.5) no error return after a setInstance except setInstance's own error, and resolve itself records no state (a failed resolution is not cached); (R15.6) explicit panics only in Must*, all type assertions comma-ok; (R15.7) typestate: no nil-map write when an operation overlaps Close; (R15.8) nil arguments rejected with the matching sentinel before use; (R15.9) deferred graph insertion rejects nothing but a nil provider, so cycles are always reported by the typed error of the cycle check. NOT decided: panics inside reflect outside the recovered region; retry behaviour as observed values.",
 		commonAssumptions, func(w *World, r *Report) {
 			la := NewLockAnalysis(w)
+			r.Rule("R15.15", 10, "'circular', 'lifetime conflict' and 'not found' are reported at Build for every dependency the invoker resolves: the field walkers of the analyzer and of the invoker skip the same fields (an unseen cycle is a stack overflow at resolution, not an error)")
+			r.Try(func() { ruleFieldFilters(w, r, "R15.15") })
+			r.Rule("R15.17", 1, "no operation panics on an unhashable service instance: no map is keyed by an interface type that holds instances")
+			r.Try(func() { ruleNoInstanceMapKeys(w, r, "R15.17") })
+			r.Rule("R15.16", 2, "a Build that fails after construction started leaves no partial state: it closes the partial provider on every such exit")
+			r.Try(func() { ruleBuildCleanup(w, r, "R15.16") })
 			r.Rule("R15.1", 3, "recover around the constructor call; panic and invocation errors mapped with their payload")
 			r.Rule("R15.2", 8, "R-ERRCHAIN (i): Unwrap on every error struct with a cause field")
 			r.Rule("R15.3", 8, "R-ERRCHAIN (ii): %w for error arguments of fmt.Errorf")
@@ -64,6 +70,8 @@ func init() {
 			r.Try(func() { ruleNoInPlaceReuse(w, r, "R19.5") })
 			r.Rule("R19.6", 1, "the degree recomputation counts every edge")
 			r.Try(func() { ruleDegreeCountsEveryEdge(w, r, "R19.6") })
+			r.Rule("R19.8", 4, "a rejected add leaves the graph as it was: no exit is reachable after deleting a node without sweeping the edge table or rebuilding the group links")
+			r.Try(func() { ruleDeletedNodesUnlinked(w, r, "R19.8") })
 			r.Rule("R19.7", 1, "the edge table and the nodes' own dependency lists describe the same edges")
 			r.Try(func() { ruleEdgesAgreeWithNodeLists(w, r, "R19.7") })
 			sub := NewReport(r.Prop, r.Tier, w)
